@@ -118,7 +118,11 @@ func runGated(kind, repo string, runID int) (rows []tr.M, err error) {
 	dir, _ := os.MkdirTemp("", "vsend-")
 	defer os.RemoveAll(dir)
 	id := quickfix.SessionID{BeginString: "FIX.4.2", SenderCompID: "ENG", TargetCompID: "PEER", Qualifier: fmt.Sprintf("g%d", runID)}
-	be, err := vstore.NewBackend(kind, filepath.Join(dir), []quickfix.SessionID{id}, repo)
+	bk := kind
+	if bk == "sqlite" {
+		bk = "sqlitebusy"
+	}
+	be, err := vstore.NewBackend(bk, filepath.Join(dir), []quickfix.SessionID{id}, repo)
 	if err != nil {
 		return nil, err
 	}
